@@ -214,6 +214,7 @@ def sharing(ctx, d1):
             d1.ok('Stream.link_with', '%s shared exactly when selected (%d paths)' % (k, n), f)
     unlink_rule(ctx, d1, expect)
     copy_like_contract(ctx, d1)
+    copy_like_phase(ctx, d1)
 
 
 def copy_like_contract(ctx, d1):
@@ -239,6 +240,37 @@ def copy_like_contract(ctx, d1):
             last = [x for x in (wit or []) if x.lineno]
             d1.fail('%s.copy_like' % cname, 'contract-thermal-condition', 'some normal path returns without copying T and P from the other stream '
                     '(it leaves through line %s)' % (last[-1].lineno if last else '?'), f, last[-1].ast if last else f.node)
+
+
+def copy_like_phase(ctx, d1):
+    """copy_like of a single-phase indexer: "a copy has the same ... phase": on every path that copies data from another indexer (any path
+    but the `self is other` shortcut) the phase of the other indexer is stored into this one -- whatever the property packages are."""
+    prog = ctx.prog
+    f = prog.method('ChemicalIndexer', 'copy_like', rel=IX)
+    o_ = f.params[1]
+    ps, _ = run_paths(prog.normal_form(f), max_paths=2000)
+    n = 0
+    bad = None
+    for p in ps:
+        if p.raised:
+            continue
+        same_obj = implied(p.conds, lambda t: isinstance(t, ast.Compare) and len(t.ops) == 1 and isinstance(t.ops[0], ast.Is)
+                           and {src(t.left), src(t.comparators[0])} == {'self', o_})
+        if same_obj is True:
+            continue
+        n += 1
+        st = [e for e in p.events if e.kind == 'store' and e.target in ('self.phase', 'self._phase._phase', 'self._phase')]
+        okk = any(e.value is not None and e.value.pretty() in ('%s.phase' % o_, '%s._phase._phase' % o_) for e in st)
+        if not okk:
+            bad = p
+    if n == 0:
+        raise AnalysisError('ChemicalIndexer.copy_like: no copying path')
+    if bad is None:
+        d1.ok('ChemicalIndexer.copy_like', 'the phase of the other indexer is stored on all %d copying paths' % n, f)
+    else:
+        d1.fail('ChemicalIndexer.copy_like', 'contract-phase', 'a path that copies the flows of the other indexer returns without copying its phase '
+                '(conditions on that path: %s)' % '; '.join('%s is %s' % (src(t), o) for t, o in bad.conds if not isinstance(t, str))[:200], f,
+                bad.ret_node if bad.ret_node is not None else f.node)
 
 
 def unlink_rule(ctx, d1, expect=None):
